@@ -231,7 +231,16 @@ def resync_step(ctx, chains, pairs, epochs=4, thorough=False, design=True):
                                                                  "tlc_verdict": what, "trace_prefix": events[max(0, hwm - 40):hwm + 1]})
         ctx.report(sig, "resync: event #%d %s -> %s" % (hwm, json.dumps(ev, sort_keys=True), what), rp)
     # binding demonstration: one logged value changed, one write dropped -> rejected
-    ws = [i for i, e in enumerate(events) if e["e"] == "W" and e.get("cls") == "q"]
+    def completes(i):
+        # the pass this write belongs to runs to its End without a crash: a write dropped right before a Crash is
+        # indistinguishable from the crash having come one write earlier, and is rightly accepted
+        for e in events[i + 1:]:
+            if e["e"] == "Crash":
+                return False
+            if e["e"] in ("End", "Reset", "Config"):
+                return e["e"] == "End"
+        return False
+    ws = [i for i, e in enumerate(events) if e["e"] == "W" and e.get("cls") == "q" and completes(i)]
     if ws and accepted:
         i = ws[len(ws) // 2]
         bad = [dict(e) for e in events]
